@@ -7,7 +7,7 @@ from . import common
 PROP = "C04"
 LEVEL = "model_checking"
 RULE = (
-    "X-ENUM over REG (k = 1..20 simultaneously live values x 11 lifetime shapes), FUNC, FUNC2, FUNC3 (call depth 4), LATESTORE (a local stored to again after its last read while later locals are live), FORFN (for-range start / bound / step in parameters and locals x 6 loop bodies), LIB (library module-level registers), LIST, DEV and a CTRL sub-family under the four "
+    "X-ENUM over REG (k = 1..20 simultaneously live values x 11 lifetime shapes), FUNC, FUNC2, FUNC3 (call depth 4), WRAP (statements spanning several source lines), LATESTORE (a local stored to again after its last read while later locals are live), FORFN (for-range start / bound / step in parameters and locals x 6 loop bodies), LIB (library module-level registers), LIST, DEV and a CTRL sub-family under the four "
     "calling-convention vectors (inline x push/pop); X-RUN executes every distinct emitted program for every device answer sequence "
     "with the TAGS monitor attached: every register read through an operand that was virtual register v before allocation must find "
     "the value last written through v (shadow tags per physical register), plus equal traces from zeroed and poisoned registers and "
@@ -47,6 +47,8 @@ def build_cases(tier):
         cases.append(dict(c, variants=[{}], static=["regs"]))
     for c in F.dev(tier):
         cases.append(dict(c, variants=[{}, {"inline_functions": False}], static=["regs"]))
+    for c in F.wrap(tier):
+        cases.append(dict(c, static=["regs"]))
     for c in F.latestore(tier):
         cases.append(dict(c, variants=[{}, {"inline_functions": False}], static=["regs"]))
     for c in F.intrinsic(tier):
